@@ -44,11 +44,14 @@ pub struct Recorder<'a> {
     pub sync_points: Vec<(usize, Vec<u8>)>,
     /// how many of them were explicit, acknowledged syncs
     pub acknowledged: usize,
+    /// indices into `sync_points` of the explicit, acknowledged syncs / finishes
+    pub explicit: Vec<usize>,
 }
 
 impl Recorder<'_> {
     /// call after every acknowledged sync/finish with the logical content obtained through the public read API
     pub fn sync_point(&mut self, logical_state: Vec<u8>) {
+        self.explicit.push(self.sync_points.len());
         self.sync_points.push(((self.api.position)(), logical_state));
         self.acknowledged += 1;
     }
@@ -323,13 +326,13 @@ impl<S: CrashSpec> Crash<S> {
         serde_json::from_slice::<ChildAnswer>(&buf).map_err(|_| format!("exit_{}_no_answer", libc::WEXITSTATUS(status)))
     }
 
-    fn record(&self, scratch: &Path) -> Result<(Vec<LogOp>, Vec<(usize, Vec<u8>)>, PathBuf), String> {
+    fn record(&self, scratch: &Path) -> Result<(Vec<LogOp>, Vec<(usize, Vec<u8>)>, PathBuf, Vec<usize>), String> {
         let dir = scratch.join(format!("hist-{}", h64(&self.spec.name())));
         let _ = std::fs::remove_dir_all(&dir);
         std::fs::create_dir_all(&dir).map_err(|e| e.to_string())?;
         let prefix = dir.to_string_lossy().into_owned();
         (self.shim.start)(&prefix);
-        let mut rec = Recorder { api: self.shim, sync_points: Vec::new(), acknowledged: 0 };
+        let mut rec = Recorder { api: self.shim, sync_points: Vec::new(), acknowledged: 0, explicit: Vec::new() };
         let r = catch(|| self.spec.run_history(&dir, &mut rec));
         let (log, unsupported) = (self.shim.stop)();
         match r {
@@ -340,10 +343,27 @@ impl<S: CrashSpec> Crash<S> {
         if !unsupported.is_empty() {
             return Err(format!("the write log is incomplete (unmodelled operation): {:?}", unsupported));
         }
-        Ok((log, rec.sync_points, dir))
+        Ok((log, rec.sync_points, dir, rec.explicit))
     }
 
-    fn judge(&self, ans: Result<ChildAnswer, String>, states: &[(usize, Vec<u8>)], prefix: usize, kind: &str) -> Result<String, Fail> {
+    fn judge(&self, ans: Result<ChildAnswer, String>, states: &[(usize, Vec<u8>)], prefix: usize, kind: &str, clean_sync: &[usize]) -> Result<String, Fail> {
+        // `clean_sync` (indices into `states`) is non-empty iff the image is the COMPLETE write log up to the position of an
+        // explicit, acknowledged sync / finish — nothing dropped, nothing cut: the undamaged file as it was left. Reopening it
+        // must succeed and present exactly that content ("presents exactly the logical content it had when it was last synced
+        // or finished"); refusing an undamaged file is a violation, not a refusal of damage.
+        if !clean_sync.is_empty() {
+            match &ans {
+                Ok(ChildAnswer::Refused(why)) => {
+                    return Err(Fail::new("clean_image_refused", format!("the undamaged file(s) as left by an acknowledged sync/finish (complete write log up to position {prefix}) were refused on reopen: {why}")).with_class("refused".to_string()));
+                }
+                Ok(ChildAnswer::State(s)) | Ok(ChildAnswer::BadAfterRecovery(s, _)) => {
+                    if !clean_sync.iter().any(|&i| states[i].1 == *s) {
+                        return Err(Fail::new("clean_image_wrong_content", format!("the undamaged file(s) as left by an acknowledged sync/finish (complete write log up to position {prefix}) reopened with a logical content ({} bytes) that is not the content at that sync", s.len())).with_class("wrong_content".to_string()));
+                    }
+                }
+                _ => {}
+            }
+        }
         match ans {
             Err(how) if how.starts_with("machinery") => Err(Fail::new("machinery", how)),
             Err(how) => Err(Fail::new("fault_on_reopen", format!("reopening the image ({kind}) killed the process: {how}")).with_class(format!("{kind}/{how}"))),
@@ -401,12 +421,12 @@ impl<S: CrashSpec> Subject for Crash<S> {
         let name = self.name();
         let tier = ctx.tier;
         ctx.stats(&name).bound = format!(
-            "{}; every prefix of the write log x subsets of unsynced sectors (all subsets when <= 10 sectors, else single drops + prefixes + header-only/all-but-header) at sector sizes {:?}; every truncation length of every final file; each image reopened in a forked child",
+            "{}; every prefix of the write log x subsets of unsynced sectors (all subsets when <= 10 sectors, else single drops + prefixes + header-only/all-but-header) at sector sizes {:?}; every truncation length of every final file (files over 8 KiB: every length in the first and last 640 bytes, around every 512-byte boundary and every 509th in between); the undamaged file at an acknowledged sync must reopen with exactly that content; each image reopened in a forked child",
             self.spec.describe(),
             self.spec.sector_sizes(tier)
         );
         let scratch = ctx.scratch.clone();
-        let (log, states, hist_dir) = match self.record(&scratch) {
+        let (log, states, hist_dir, explicit) = match self.record(&scratch) {
             Ok(x) => x,
             Err(e) => {
                 ctx.machinery_error(format!("{name}: {e}"));
@@ -457,7 +477,7 @@ impl<S: CrashSpec> Subject for Crash<S> {
             }
         }
         for (f, c) in &full {
-            for len in 0..c.len() {
+            for len in truncation_lengths(c.len()) {
                 descs.push(ImageDesc { prefix: log.len(), sector: 512, dropped: vec![], truncate: Some((f.clone(), len)), kind: "truncated".into() });
             }
         }
@@ -478,7 +498,14 @@ impl<S: CrashSpec> Subject for Crash<S> {
             let files = image_from_desc(&log, d);
             let hsh = h64(&files);
             ctx.stats(&name).executions += 1;
-            if !seen.insert(hsh) {
+            let clean_sync: Vec<usize> = if d.kind == "prefix" && d.dropped.is_empty() && d.truncate.is_none() {
+                explicit.iter().copied().filter(|&i| states[i].0 == d.prefix).collect()
+            } else {
+                Vec::new()
+            };
+            // (an image identical to an earlier one is not reopened again — unless it is the undamaged file at an
+            // acknowledged sync, which is judged by the stricter rule)
+            if !seen.insert(hsh) && clean_sync.is_empty() {
                 *ctx.stats(&name).outcomes.entry("duplicate_image".into()).or_insert(0) += 1;
                 continue;
             }
@@ -490,8 +517,11 @@ impl<S: CrashSpec> Subject for Crash<S> {
             let ans = self.reopen_isolated(&img_dir);
             // an image is non-trivial iff it differs from every synced snapshot (complete-prefix image at a sync position)
             let nontrivial = !d.dropped.is_empty() || d.truncate.is_some() || !states.iter().any(|(p, _)| *p == d.prefix);
-            match self.judge(ans, &states, d.prefix, &d.kind) {
+            match self.judge(ans, &states, d.prefix, &d.kind, &clean_sync) {
                 Ok(class) => {
+                    if !clean_sync.is_empty() {
+                        *ctx.stats(&name).extra.entry("undamaged_sync_images_reopened_exactly".into()).or_insert(0) += 1;
+                    }
                     *ctx.stats(&name).outcomes.entry(class).or_insert(0) += 1;
                     if nontrivial {
                         ctx.stats(&name).nontrivial += 1;
@@ -517,7 +547,7 @@ impl<S: CrashSpec> Subject for Crash<S> {
             Err(e) => return Verdict::Unreplayable(format!("bad image descriptor: {e}")),
         };
         let scratch = ctx.scratch.clone();
-        let (log, states, hist_dir) = match self.record(&scratch) {
+        let (log, states, hist_dir, explicit) = match self.record(&scratch) {
             Ok(x) => x,
             Err(e) => return Verdict::Unreplayable(e),
         };
@@ -531,7 +561,12 @@ impl<S: CrashSpec> Subject for Crash<S> {
             return Verdict::Unreplayable(format!("cannot materialize: {e}"));
         }
         let ans = self.reopen_isolated(&img_dir);
-        let v = match self.judge(ans, &states, d.prefix, &d.kind) {
+        let clean_sync: Vec<usize> = if d.kind == "prefix" && d.dropped.is_empty() && d.truncate.is_none() {
+            explicit.iter().copied().filter(|&i| states[i].0 == d.prefix).collect()
+        } else {
+            Vec::new()
+        };
+        let v = match self.judge(ans, &states, d.prefix, &d.kind, &clean_sync) {
             Ok(_) => Verdict::Pass,
             Err(f) if f.clause == "machinery" => Verdict::Unreplayable(f.detail),
             Err(f) => Verdict::Fail(f),
@@ -540,6 +575,30 @@ impl<S: CrashSpec> Subject for Crash<S> {
         let _ = std::fs::remove_dir_all(&hist_dir);
         v
     }
+}
+
+/// Truncation lengths tried for a file of `n` bytes: every length for files up to 8 KiB; for larger files every length in the
+/// first and the last 640 bytes (headers, trailers), every multiple of 512 and its two neighbours (sector boundaries), and
+/// every 509th length in between.
+pub fn truncation_lengths(n: usize) -> Vec<usize> {
+    if n <= 8192 {
+        return (0..n).collect();
+    }
+    let mut v: Vec<usize> = (0..640).chain(n - 640..n).collect();
+    let mut k = 512;
+    while k < n {
+        v.extend([k - 1, k, k + 1]);
+        k += 512;
+    }
+    let mut k = 640;
+    while k < n {
+        v.push(k);
+        k += 509;
+    }
+    v.retain(|&x| x < n);
+    v.sort_unstable();
+    v.dedup();
+    v
 }
 
 pub fn to_json<T: Serialize>(t: &T) -> Value {
